@@ -51,15 +51,47 @@ var LayoutTemplates = []string{
 	"a·<<E·&&·b\nx\nE\n",
 }
 
+// nonASCIIWordRunes: the non-ASCII representatives of D; all of them are
+// ordinary word characters for the shell (only space and tab are blanks).
+const nonASCIIWordRunes = "é世𝒳٣\u00a0\u0085\u3000×\ufffd\U0010ffff"
+
 type slot struct {
 	at   int // index in the rendered text where the slot's rendering starts
 	kind rune
 }
 
-func renderLayout(t string) ([]rune, []slot) {
+func renderLayout(t string) ([]rune, []slot) { return renderLayoutSub(t, -1, 0) }
+
+// wordStarts returns the indices (in runes) of the one-letter words a..e of a
+// layout template.
+func wordStarts(t string) []int {
+	tr := []rune(t)
+	isL := func(r rune) bool { return r >= 'a' && r <= 'z' || r >= 'A' && r <= 'Z' || r >= '0' && r <= '9' }
+	var out []int
+	for i, r := range tr {
+		if r < 'a' || r > 'e' {
+			continue
+		}
+		if i > 0 && (isL(tr[i-1]) || tr[i-1] == '$' || tr[i-1] == '{' || tr[i-1] == '<') {
+			continue
+		}
+		if i+1 < len(tr) && (isL(tr[i+1]) || tr[i+1] == '=' || tr[i+1] == '(') {
+			continue
+		}
+		out = append(out, i)
+	}
+	return out
+}
+
+// renderLayoutSub renders t; the rune at index subAt (if any) is replaced by sub.
+func renderLayoutSub(t string, subAt int, sub rune) ([]rune, []slot) {
 	var out []rune
 	var slots []slot
-	for _, r := range t {
+	for i, r := range []rune(t) {
+		if i == subAt {
+			out = append(out, sub)
+			continue
+		}
 		switch r {
 		case '·':
 			slots = append(slots, slot{len(out), r})
@@ -97,7 +129,12 @@ func parseStream(src []rune) ([]ast.Command, []*ast.Comment, error) {
 	return all, comm, nil
 }
 
-func commentText() []rune {
+// commentText: two symbolic runes, or a concrete text while another dimension
+// of the harness is symbolic.
+func commentText(fixed bool) []rune {
+	if fixed {
+		return []rune("c#")
+	}
 	c := []rune{nd.Rune(), nd.Rune()}
 	nd.Assume(nd.And(c[0] != '\n', c[1] != '\n'))
 	return c
@@ -105,7 +142,17 @@ func commentText() []rune {
 
 func C09_Layout() {
 	t := LayoutTemplates[nd.Choice(len(LayoutTemplates))]
-	base, slots := renderLayout(t)
+	// one of the words may be a symbolic non-ASCII character (letters, digits
+	// and the spaces of D that are not blanks of the shell): what follows a
+	// layout position is then not an ASCII word
+	ws := wordStarts(t)
+	subAt, sub := -1, rune(0)
+	if k := nd.Choice(len(ws) + 1); k < len(ws) {
+		subAt, sub = ws[k], nd.RuneIn(nonASCIIWordRunes)
+		nd.Cover("non-ascii-word")
+	}
+	fixedComment := subAt >= 0
+	base, slots := renderLayoutSub(t, subAt, sub)
 	cmds0, comm0, err0 := parseStream(base)
 	nd.Assert(err0 == nil, "the layout template parses")
 	if err0 != nil {
@@ -120,7 +167,7 @@ func C09_Layout() {
 		out = append(out, base...)
 		switch nd.Choice(3) {
 		case 0:
-			added = commentText()
+			added = commentText(fixedComment)
 			out = append(append(append(out, ' ', '#'), added...))
 			nd.Cover("comment-at-end")
 		case 1:
@@ -154,7 +201,7 @@ func C09_Layout() {
 				out = append(out, '\n')
 				nd.Cover("newline-for-semicolon")
 			case 1: // comment before that newline
-				added = commentText()
+				added = commentText(fixedComment)
 				out = append(append(append(out, ' ', '#'), added...), '\n')
 				nd.Cover("comment-before-newline")
 			case 2: // semicolon, blanks
@@ -170,11 +217,11 @@ func C09_Layout() {
 				out = append(out, '\n', nd.RuneIn(" \t"), '\n')
 				nd.Cover("blank-line")
 			case 1: // comment before the newline
-				added = commentText()
+				added = commentText(fixedComment)
 				out = append(append(append(out, ' ', '#'), added...), '\n')
 				nd.Cover("comment-before-newline")
 			case 2: // a comment line after the newline
-				added = commentText()
+				added = commentText(fixedComment)
 				out = append(append(append(out, '\n', '#'), added...), '\n')
 				nd.Cover("comment-line")
 			}
